@@ -1,5 +1,9 @@
 import BS.Properties.C19
+import BS.Properties.C19w
 #print axioms BS.Elect.inv_step
 #print axioms BS.Elect.reachable_inv
 #print axioms BS.Elect.one_runner
 #print axioms BS.Elect.done_only_when_final
+#print axioms BS.Wake.no_lost_wakeup
+#print axioms BS.Wake.woken_after_broadcast
+#print axioms BS.Wake.abandon_clears_loses_wakeup
